@@ -22,6 +22,12 @@ ASSUMPTIONS = ['harness/ref/refcell.py (agrees with the two hashes pinned in tes
 ROUTES = ['builder', 'tvm', 'plain']
 
 
+def _std_repr(r):
+    """CellRepr of an ordinary level-0 cell: d1 d2, data with the completion tag, the children's depths, the children's hashes"""
+    return bytes([len(r.refs), r.d2()]) + r.data_padded() + b''.join(c.D(0).to_bytes(2, 'big') for c in r.refs) + \
+        b''.join(c.H(0) for c in r.refs)
+
+
 def node_problem(r, l, what):
     """compare one reference cell with one library cell"""
     h = r.H(0)
@@ -41,6 +47,13 @@ def node_problem(r, l, what):
         return Fail('calculate_representation_hash/raises', f'{exc_sig(v)}: {v!r} (bits={len(r.bits)} refs={len(r.refs)})')
     if v != l.hash:
         return Fail(f'calculate_representation_hash/differs-from-cached/{what}', f'{v.hex()} vs {l.hash.hex()}')
+    # the representation itself (what the explicit recomputation hashes) is the standard one: d1 d2, padded data, depths, hashes
+    ok, rep = call(l.get_representation)
+    if ok and isinstance(rep, (bytes, bytearray)) and bytes(rep) != _std_repr(r):
+        return Fail(f'get_representation/differs-from-standard/{what}', f'{bytes(rep).hex()[:80]} vs {_std_repr(r).hex()[:80]}')
+    ok, dat = call(lambda: l.data)
+    if ok and isinstance(dat, (bytes, bytearray)) and bytes(dat) != r.data_padded():
+        return Fail(f'data/differs-from-padded-data/{what}', f'{bytes(dat).hex()[:80]} vs {r.data_padded().hex()[:80]}')
     return None
 
 
@@ -103,6 +116,14 @@ def check(case):
         f = node_problem(r, l, route)
         if f:
             return f
+    e = Cell.empty()
+    if e.hash != rc.RCell('', [], False).H(0) or len(e.bits) or e.refs:
+        return Fail('Cell.empty/not-the-empty-cell', e.hash.hex())
+    for r, l in zip(cells, lib):
+        for i, ch in enumerate(r.refs):
+            ok, got = call(lambda: l[i])
+            if not ok or getattr(got, 'hash', None) != ch.H(0):
+                return Fail('getitem/not-the-ith-reference', f'cell[{i}] of a cell with {len(r.refs)} refs: {got!r}')
     # an operation the library must refuse (a cell that would be deeper than 1023; an over-full builder; a corrupt bag) happens
     # in between: what is built and hashed afterwards is not affected by it
     from pytoniq_core.boc.builder import Builder as _B
